@@ -453,7 +453,7 @@ class VectorParamEnumCodeString(VectorParamBase):  # pylint: disable=too-few-pub
     fallback_class = attr.ib(init=False, default=None)
 
     def get_item_size(self, item):
-        return len(item.value.code)
+        return self.item_class.get_param().item_num_size + len(item.value.code)
 
 
 @attr.s
